@@ -91,8 +91,14 @@ def predicate(rep):
         imp = fi.module.imports.get("graph_isomorphism", "")
         rep.ob("O13.1", "R13", fi, imp.endswith("graph_morphism.graph_isomorphism"), f"import <- {imp}", "graph_isomorphism is the one of graph_morphism")
         c = calls[0]
-        a2, a3 = norm(c.args[2]).replace(" ", ""), norm(c.args[3]).replace(" ", "")
-        ok = a2 in ("nodeMatch", "nodeMatchorself.nodeMatch") and a3 in ("edgeMatch", "edgeMatchorself.edgeMatch")
+        def _srcs(e):
+            """every expression the argument can come from (through locals), as text"""
+            from ..rules.provenance import all_roots
+            if isinstance(e, ast.Name) and e.id not in fi.params:
+                return {norm(x.value).replace(" ", "") for x in d.get(e.id, []) if x.kind == "assign" and x.value is not None} or {norm(e)}
+            return {norm(e).replace(" ", "")}
+        a2s, a3s = _srcs(c.args[2]), _srcs(c.args[3])
+        ok = a2s <= {"nodeMatch", "nodeMatchorself.nodeMatch"} and a3s <= {"edgeMatch", "edgeMatchorself.edgeMatch"}
         rep.ob("O13.1", "R13", fi, ok, c, "the configured node and bond predicates are the ones applied", node=c)
     gi = rep.f(MO, "graph_isomorphism")
     cs = [c for c in walk_local(gi.node) if isinstance(c, ast.Call) and (dotted(c.func) or "") == "nx.is_isomorphic"]
